@@ -129,8 +129,6 @@ def dhcp_rules(ck, agg, nn):
                     continue
                 leases = [e for e in out.trace if e.kind == "lease"]
                 agg.add("R16.4", f, "one request leases at most one address", len(leases) <= 1, "%s: %d leases on one path" % (label, len(leases)))
-                flag = out.state.heap[node.ident].fields.get("_do_dhcp")
-                agg.add("R16.6", f, "the pending-request flag is consumed", value_matches(flag, False), "%s: flag left %r" % (label, flag))
                 if not leases:
                     wr = [e for e in out.trace if e.kind == "summary" and e.data[0] == "_write"]
                     agg.add("R16.3", f, "no reply without a lease", not wr, "%s: reply sent although nothing was leased" % label)
@@ -180,13 +178,14 @@ def dhcp_rules(ck, agg, nn):
                     agg.add("R16.3", f, "unassigned requesters are answered physically, relayed ones by routing", const_of(norm(a[1])) == st_want and const_of(norm(a[0])) == via,
                             "%s: _write(%r, %r)" % (label, a[0], a[1]))
             agg.add("R16.1", f, "every child address of the relaying node can be offered, highest digit first", offered == set(want), "%s: offered %s, children %s" % (label, sorted(map(str, offered)), [oct(w) for w in want]))
-    # not armed: nothing happens
-    st, node = nn.fresh(fields={"_do_dhcp": False, net.FN("_id"): 0, net.FN("_addr"): 0})
-    outs = nn.run(f, node, [], st)
-    for out in outs:
-        agg.add("R16.6", f, "without a pending request _dhcp() does nothing", out.kind == "return" and not [e for e in out.trace if e.kind in ("lease", "summary")], "effects without a request")
+    # (that nothing is leased without a pending request, and that a request is served once, is judged at the update() level: dispatch())
     nn.model.opaque.pop(f_set.qualname, None)
     return n
+
+
+def _is_del(e):
+    """an entry of a dict is removed: `del d[k]` or `d.pop(k)`"""
+    return e.kind == "delitem" or (e.kind == "pop" and isinstance(e.data[0], Ref) and e.data[0].kind == "dict")
 
 
 def _is_table_items(v):
@@ -239,7 +238,7 @@ def table_ops(ck, agg, nn):
             if out.kind != "return":
                 agg.add("R16.4", f_set, "set_address() does not raise", False, "raises %s" % out.value.exc)
                 continue
-            muts = [e for e in out.trace if e.kind in ("dictstore", "delitem")]
+            muts = [e for e in out.trace if e.kind == "dictstore" or _is_del(e)]
             stores = [e for e in muts if e.kind == "dictstore"]
             agg.add("R16.4", f_set, "set_address() stores exactly one pair", len(stores) == 1 and const_of(norm(stores[0].data[2])) == 0o15, "stores %r" % [(e.data[1], e.data[2]) for e in stores])
             if stores:
@@ -279,7 +278,7 @@ def table_ops(ck, agg, nn):
                         cmps = [e for e in evs if e.kind == "cond" and isinstance(e.node, ast.Compare) and isinstance(e.data[1], tuple) and _equal(e) is not None]
                         a_eq = [_equal(e) for e in cmps if _role(e, "dict-val") and any(const_of(norm(x)) == 0o15 for x in e.data[1])]
                         i_eq = [_equal(e) for e in cmps if _role(e, "dict-key") and any(const_of(norm(x)) == 7 for x in e.data[1])]
-                        deleted = any(e.kind == "delitem" for e in evs)
+                        deleted = any(_is_del(e) for e in evs)
                         if True in a_eq:
                             holder = True
                         if not (False in a_eq or (True in a_eq and (deleted or True in i_eq)) or True in i_eq):
@@ -291,7 +290,7 @@ def table_ops(ck, agg, nn):
                             "the pass over the table stops after %d entr%s although the entry holding the address has not been found" % (len(L["iters"]), "y" if len(L["iters"]) == 1 else "ies")
                 agg.add("R16.8", f_set, "with search_by_address, no other ID is left holding the address (the holder is found and evicted, or every entry was compared)", okl,
                         "set_address(7, 0o15, search_by_address=True): %s - another ID can keep 0o15, two IDs share one address after load_dhcp()" % why)
-                dels = [e for e in muts if e.kind == "delitem"]
+                dels = [e for e in muts if _is_del(e)]
                 for dl in dels:
                     agg.add("R16.4", f_set, "search_by_address replaces the entry that holds this address", any(
                         _equal(e) is True and _role(e, "dict-val") and any(const_of(norm(x)) == 0o15 for x in e.data[1]) for e in out.trace if e.kind == "cond" and e.seq < dl.seq and isinstance(e.data[1], tuple) and isinstance(e.node, ast.Compare)),
@@ -304,7 +303,7 @@ def table_ops(ck, agg, nn):
             if out.kind != "return":
                 agg.add("R16.6", f_rel, "release_address() does not raise", False, "raises %s" % out.value.exc)
                 continue
-            dels = [e for e in out.trace if e.kind == "delitem"]
+            dels = [e for e in out.trace if _is_del(e)]
             if dels:
                 agg.add("R16.6", f_rel, "release_address(a) deletes exactly one entry, the one holding a, and reports True", len(dels) == 1 and value_matches(out.value, True) and any(
                     _equal(e) is True and _role(e, "dict-val") and any(const_of(norm(x)) == addr for x in e.data[1]) for e in out.trace if e.kind == "cond" and e.seq < dels[0].seq and isinstance(e.data[1], tuple) and isinstance(e.node, ast.Compare)),
@@ -344,35 +343,45 @@ def dispatch(ck, agg, nn):
         it.event(st, fr, "release", node, (args[1] if len(args) > 1 else None,))
         return [(st, Const(True))]
 
-    def rec_dhcp(model, it, st, fr, node, target, args, kwargs):
-        it.event(st, fr, "dhcp", node, (st.heap[args[0].ident].fields.get("_do_dhcp"),))
+    f_set = P.method(cls, "set_address")
+
+    def rec_set(model, it, st, fr, node, target, args, kwargs):
+        it.event(st, fr, "lease", node, (args[1], args[2]))
         return [(st, Const(None))]
     nn.model.opaque[f_rel.qualname] = rec_rel
-    nn.model.opaque[f_dhcp.qualname] = rec_dhcp
+    nn.model.opaque[f_set.qualname] = rec_set
     try:
         for mtype, reserved, frm in ((T.CONSTANTS["MESH_ADDR_REQUEST"], 7, DEFAULT), (T.CONSTANTS["MESH_ADDR_REQUEST"], 0, DEFAULT), (T.CONSTANTS["MESH_ADDR_RELEASE"], 0, 0o15), (5, 7, 0o15)):
             n += 1
             nn.model.opaque[key] = fixed_update(mtype, reserved, frm)
             st, node = nn.fresh(fields={net.FN("_id"): 0, net.FN("_addr"): 0, "_do_dhcp": False})
-            outs = nn.run(fu, node, [], st)
+            outs = nn.run(fu, node, [], st, limits=Limits(max_paths=60000, loop_unroll=2, depth=14, concrete_loop=12))
+            want_arm = mtype == T.CONSTANTS["MESH_ADDR_REQUEST"] and reserved != 0
+            served = 0
             for out in outs:
                 if out.kind != "return":
                     agg.add("R16.6", fu, "update() does not raise", False, "raises %s" % out.value.exc)
                     continue
-                d = [e for e in out.trace if e.kind == "dhcp"]
+                # by effect, wherever the pending-request flag is tested and cleared (update() or the allocator): an address is leased
+                # (and answered) only for an address request that carries a node ID, at most once, and no request stays pending
+                leases = [e for e in out.trace if e.kind == "lease"]
                 r = [e for e in out.trace if e.kind == "release"]
-                armed = bool(d) and value_matches(d[0].data[0], True)
-                want_arm = mtype == T.CONSTANTS["MESH_ADDR_REQUEST"] and reserved != 0
-                agg.add("R16.6", fu, "the allocator is armed exactly for address requests that carry a node ID", armed == want_arm and len(d) == 1,
-                        "type %d reserved %d: allocator armed=%r, _dhcp() calls=%d" % (mtype, reserved, armed, len(d)))
+                served += bool(leases)
+                agg.add("R16.6", fu, "an address is leased only for an address request that carries a node ID, at most once per frame", len(leases) <= (1 if want_arm else 0),
+                        "type %d reserved %d: %d lease(s) %r" % (mtype, reserved, len(leases), [e.data for e in leases]))
+                flag = out.state.heap[node.ident].fields.get("_do_dhcp")
+                agg.add("R16.6", fu, "no request stays pending after update() (the pending-request flag is consumed)", value_matches(flag, False),
+                        "type %d reserved %d: the flag is left %r - the next update() would serve the stale request again" % (mtype, reserved, flag))
                 if mtype == T.CONSTANTS["MESH_ADDR_RELEASE"]:
                     agg.add("R16.6", fu, "a release frees the address the frame came from", len(r) == 1 and const_of(norm(r[0].data[0])) == frm, "release calls %r" % [e.data for e in r])
                 else:
                     agg.add("R16.6", fu, "nothing is released by other frames", not r, "type %d releases %r" % (mtype, [e.data for e in r]))
+            if want_arm:
+                agg.add("R16.6", fu, "an address request that carries a node ID is served", served > 0, "type %d reserved %d: no path leases an address" % (mtype, reserved))
     finally:
         nn.model.opaque[key] = saved
         nn.model.opaque.pop(f_rel.qualname, None)
-        nn.model.opaque.pop(f_dhcp.qualname, None)
+        nn.model.opaque.pop(f_set.qualname, None)
     return n
 
 
